@@ -50,9 +50,36 @@ def main():
             if args and prop not in args:
                 continue
             jobs.append((prop, os.path.join(os.path.dirname(m), "patch.diff"), "seeded/" + os.path.basename(os.path.dirname(m))))
-    for prop, p, label in jobs:
-        res = run_one(prop, p, label)
-        print("%-45s %-4s %-32s %s" % res, flush=True)
+    nj = 1
+    for a in sys.argv[1:]:
+        if a.startswith("--jobs="):
+            nj = int(a.split("=")[1])
+    # one property at a time per worker: runs of the same property share coq/Cnn/Gen_*.v and must not overlap
+    byprop = {}
+    for j in jobs:
+        byprop.setdefault(j[0], []).append(j)
+    import threading
+    lock = threading.Lock()
+    out = open(os.path.join(V, "mutants", "RESULTS.txt"), "a") if "--record" in sys.argv else None
+    props = sorted(byprop)
+
+    def worker():
+        while True:
+            with lock:
+                if not props:
+                    return
+                pr = props.pop(0)
+            for prop, p, label in byprop[pr]:
+                res = run_one(prop, p, label)
+                line = "%-45s %-4s %-32s %s" % res
+                with lock:
+                    print(line, flush=True)
+                    if out:
+                        out.write(line + "\n")
+                        out.flush()
+    ths = [threading.Thread(target=worker) for _ in range(nj)]
+    [t.start() for t in ths]
+    [t.join() for t in ths]
 
 
 if __name__ == "__main__":
